@@ -1,1 +1,184 @@
-//! reference model stub (to be written)
+//! M-ENV: colour auto-detection as a pure function.
+//!
+//! Written from the property statement (C09) and the published conventions of
+//! the individual variables, not from the code under test:
+//!
+//!   NO_COLOR        (no-color.org)            on  <=> set and not empty
+//!   CLICOLOR_FORCE  (bixense.com/clicolors)   on  <=> set and not empty
+//!   CLICOLOR        (bixense.com/clicolors)   unset -> no opinion; set -> on unless the value is exactly "0"
+//!   TERM            supports colour <=> set to anything other than "dumb"
+//!                   (non-Windows; on Windows an unset TERM does not rule colour out)
+//!   COLORTERM       (termstandard/colors)     truecolor <=> exactly "truecolor" or "24bit"
+//!   CI              on <=> set (any value, the empty one included)
+//!
+//! Precedence of the automatic decision:
+//!   1. an explicit global choice (anything but Auto) wins;
+//!   2. otherwise a non-empty NO_COLOR disables colour;
+//!   3. otherwise a non-empty CLICOLOR_FORCE enables it;
+//!   4. otherwise CLICOLOR=0 disables it;
+//!   5. otherwise colour is enabled exactly when the stream is a terminal and
+//!      (TERM supports colour, or CLICOLOR is set to something other than "0", or CI is set).
+
+/// The four values of the process-wide colour choice.
+#[derive(Clone, Copy, Debug, PartialEq, Eq, Hash, PartialOrd, Ord)]
+pub enum Choice {
+    Auto,
+    AlwaysAnsi,
+    Always,
+    Never,
+}
+
+pub const ALL_CHOICES: [Choice; 4] = [Choice::Auto, Choice::AlwaysAnsi, Choice::Always, Choice::Never];
+
+/// What the automatic decision must be.
+#[derive(Clone, Copy, Debug, PartialEq, Eq, Hash, PartialOrd, Ord)]
+pub enum Decision {
+    /// the explicit global choice, returned as is
+    Explicit(Choice),
+    /// colour on (the statement does not say which of the two "on" values is reported)
+    Enabled,
+    /// colour off
+    Disabled,
+}
+
+/// Which rule of the chain decided (for coverage reporting).
+#[derive(Clone, Copy, Debug, PartialEq, Eq, Hash, PartialOrd, Ord)]
+pub enum Rule {
+    GlobalChoice,
+    NoColor,
+    ClicolorForce,
+    ClicolorZero,
+    TerminalAndSupport,
+    NotTerminal,
+    TerminalNoSupport,
+}
+
+/// The environment as seen by the decision (values as text; `None` = unset).
+#[derive(Clone, Debug, Default, PartialEq, Eq, Hash)]
+pub struct Env {
+    pub no_color: Option<String>,
+    pub clicolor_force: Option<String>,
+    pub clicolor: Option<String>,
+    pub term: Option<String>,
+    pub ci: Option<String>,
+    pub colorterm: Option<String>,
+}
+
+pub fn set_and_non_empty(v: Option<&str>) -> bool {
+    match v {
+        None => false,
+        Some(s) => !s.is_empty(),
+    }
+}
+
+pub fn no_color(v: Option<&str>) -> bool {
+    set_and_non_empty(v)
+}
+
+pub fn clicolor_force(v: Option<&str>) -> bool {
+    set_and_non_empty(v)
+}
+
+/// `None` = no opinion (unset); `Some(false)` only for exactly "0".
+pub fn clicolor(v: Option<&str>) -> Option<bool> {
+    v.map(|s| s != "0")
+}
+
+pub fn term_supports_color(v: Option<&str>, windows: bool) -> bool {
+    match v {
+        None => windows,
+        Some(s) => s != "dumb",
+    }
+}
+
+/// TERM allows ANSI escape codes (same as colour support off Windows; on
+/// Windows an unset TERM or "cygwin" rules ANSI out).
+pub fn term_supports_ansi_color(v: Option<&str>, windows: bool) -> bool {
+    if !windows {
+        return term_supports_color(v, false);
+    }
+    match v {
+        None => false,
+        Some(s) => s != "dumb" && s != "cygwin",
+    }
+}
+
+pub fn truecolor(v: Option<&str>) -> bool {
+    matches!(v, Some("truecolor") | Some("24bit"))
+}
+
+pub fn is_ci(v: Option<&str>) -> bool {
+    v.is_some()
+}
+
+impl Env {
+    pub fn decide(&self, global: Choice, is_terminal: bool, windows: bool) -> (Decision, Rule) {
+        if global != Choice::Auto {
+            return (Decision::Explicit(global), Rule::GlobalChoice);
+        }
+        if no_color(self.no_color.as_deref()) {
+            return (Decision::Disabled, Rule::NoColor);
+        }
+        if clicolor_force(self.clicolor_force.as_deref()) {
+            return (Decision::Enabled, Rule::ClicolorForce);
+        }
+        let cli = clicolor(self.clicolor.as_deref());
+        if cli == Some(false) {
+            return (Decision::Disabled, Rule::ClicolorZero);
+        }
+        if !is_terminal {
+            return (Decision::Disabled, Rule::NotTerminal);
+        }
+        let support =
+            term_supports_color(self.term.as_deref(), windows) || cli == Some(true) || is_ci(self.ci.as_deref());
+        if support {
+            (Decision::Enabled, Rule::TerminalAndSupport)
+        } else {
+            (Decision::Disabled, Rule::TerminalNoSupport)
+        }
+    }
+}
+
+impl Decision {
+    /// May the decision function (which never answers Auto) report `got`?
+    pub fn admits_choice(&self, got: Choice) -> bool {
+        match *self {
+            Decision::Explicit(c) => got == c,
+            Decision::Enabled => matches!(got, Choice::Always | Choice::AlwaysAnsi),
+            Decision::Disabled => got == Choice::Never,
+        }
+    }
+
+    /// Is colour on after the decision (escape codes reach the writer)?
+    pub fn colour_on(&self) -> bool {
+        match *self {
+            Decision::Explicit(c) => matches!(c, Choice::Always | Choice::AlwaysAnsi),
+            Decision::Enabled => true,
+            Decision::Disabled => false,
+        }
+    }
+}
+
+#[cfg(test)]
+mod tests {
+    use super::*;
+    fn e(nc: Option<&str>, cf: Option<&str>, cc: Option<&str>, term: Option<&str>, ci: Option<&str>) -> Env {
+        let s = |o: Option<&str>| o.map(|x| x.to_string());
+        Env { no_color: s(nc), clicolor_force: s(cf), clicolor: s(cc), term: s(term), ci: s(ci), colorterm: None }
+    }
+    #[test]
+    fn chain() {
+        use Decision::*;
+        assert_eq!(e(Some("1"), Some("1"), None, None, None).decide(Choice::Auto, true, false).0, Disabled);
+        assert_eq!(e(Some(""), Some("1"), Some("0"), None, None).decide(Choice::Auto, false, false).0, Enabled);
+        assert_eq!(e(None, Some(""), Some("0"), Some("xterm"), Some("1")).decide(Choice::Auto, true, false).0, Disabled);
+        assert_eq!(e(None, None, None, Some("dumb"), None).decide(Choice::Auto, true, false).0, Disabled);
+        assert_eq!(e(None, None, Some(""), Some("dumb"), None).decide(Choice::Auto, true, false).0, Enabled);
+        assert_eq!(e(None, None, None, Some("dumb"), Some("")).decide(Choice::Auto, true, false).0, Enabled);
+        assert_eq!(e(None, None, None, Some(""), None).decide(Choice::Auto, true, false).0, Enabled);
+        assert_eq!(e(None, None, None, Some("xterm"), None).decide(Choice::Auto, false, false).0, Disabled);
+        assert_eq!(e(Some("1"), None, None, None, None).decide(Choice::Always, false, false).0, Explicit(Choice::Always));
+        assert_eq!(e(None, None, None, None, None).decide(Choice::Auto, true, false).0, Disabled);
+        assert_eq!(e(None, None, None, None, None).decide(Choice::Auto, true, true).0, Enabled);
+    }
+}
